@@ -1,6 +1,7 @@
 package checks
 
 import (
+	"context"
 	"fmt"
 	"strings"
 
@@ -223,6 +224,25 @@ func c05Ops() []msOp {
 		mk("MergeMap", 2, mergeModel(2), func(s []ro.Observable[int], out *h.Rec) ro.Subscription {
 			return sub(ro.MergeMap(func(i int) ro.Observable[int] { return s[i] })(ro.Just(0, 1)), out)
 		}),
+		mk("MergeMapWithContext", 2, mergeModel(2), func(s []ro.Observable[int], out *h.Rec) ro.Subscription {
+			return sub(ro.MergeMapWithContext(func(_ context.Context, i int) ro.Observable[int] { return s[i] })(ro.Just(0, 1)), out)
+		}),
+		mk("MergeMapIWithContext", 2, mergeModel(2), func(s []ro.Observable[int], out *h.Rec) ro.Subscription {
+			// the index, not the item, selects the inner source (items 5, 5)
+			return sub(ro.MergeMapIWithContext(func(ctx context.Context, _ int, i int64) (context.Context, ro.Observable[int]) { return ctx, s[i] })(ro.Just(5, 5)), out)
+		}),
+		mk("FlatMapWithContext", 2, concatModel(2), func(s []ro.Observable[int], out *h.Rec) ro.Subscription {
+			return sub(ro.FlatMapWithContext(func(_ context.Context, i int) ro.Observable[int] { return s[i] })(ro.Just(0, 1)), out)
+		}),
+		mk("FlatMapIWithContext", 2, concatModel(2), func(s []ro.Observable[int], out *h.Rec) ro.Subscription {
+			return sub(ro.FlatMapIWithContext(func(_ context.Context, _ int, i int64) ro.Observable[int] { return s[i] })(ro.Just(5, 5)), out)
+		}),
+		mk("CombineLatestWith2", 3, combineModel(3, tup3), func(s []ro.Observable[int], out *h.Rec) ro.Subscription {
+			return sub(ro.CombineLatestWith2[int](s[1], s[2])(s[0]), out)
+		}),
+		mk("ZipWith2", 3, zipModel(3, tup3), func(s []ro.Observable[int], out *h.Rec) ro.Subscription {
+			return sub(ro.ZipWith2[int](s[1], s[2])(s[0]), out)
+		}),
 		mk("Concat", 2, concatModel(2), func(s []ro.Observable[int], out *h.Rec) ro.Subscription { return sub(ro.Concat(s[0], s[1]), out) }),
 		mk("Concat3", 3, concatModel(3), func(s []ro.Observable[int], out *h.Rec) ro.Subscription { return sub(ro.Concat(s[0], s[1], s[2]), out) }),
 		mk("ConcatWith", 2, concatModel(2), func(s []ro.Observable[int], out *h.Rec) ro.Subscription { return sub(ro.ConcatWith(s[1])(s[0]), out) }),
@@ -425,6 +445,55 @@ func c05Ops() []msOp {
 		}, build: func(s []ro.Observable[int], set *recSet, out *h.Rec) ro.Subscription {
 			return subInner(ro.GroupBy(func(v int) int { return v % 2 })(s[0]), set, out, late, "group")
 		}})
+		// the indexed / context-aware variants: the key is the parity of the item's POSITION (GroupByI, GroupByIWithContext)
+		// or of its value (GroupByWithContext)
+		for _, gv := range []struct {
+			name  string
+			byPos bool
+			build func(src ro.Observable[int]) ro.Observable[ro.Observable[int]]
+		}{
+			{"GroupByI(i%2)", true, func(src ro.Observable[int]) ro.Observable[ro.Observable[int]] {
+				return ro.GroupByI(func(_ int, i int64) int { return int(i % 2) })(src)
+			}},
+			{"GroupByIWithContext(i%2)", true, func(src ro.Observable[int]) ro.Observable[ro.Observable[int]] {
+				return ro.GroupByIWithContext(func(ctx context.Context, _ int, i int64) (context.Context, int) { return ctx, int(i % 2) })(src)
+			}},
+			{"GroupByWithContext(v%2)", false, func(src ro.Observable[int]) ro.Observable[ro.Observable[int]] {
+				return ro.GroupByWithContext(func(ctx context.Context, v int) (context.Context, int) { return ctx, v % 2 })(src)
+			}},
+		} {
+			gv := gv
+			ops = append(ops, msOp{name: gv.name + sfx, k: 1, late: late, model: func() *msModel {
+				m := &msModel{sub: allSub(1)}
+				idx := map[int]int{}
+				pos := 0
+				m.step = func(m *msModel, src int, e h.Ev) {
+					switch e.K {
+					case h.N:
+						k := e.V.(int) % 2
+						if gv.byPos {
+							k = pos % 2
+						}
+						pos++
+						if _, ok := idx[k]; !ok {
+							idx[k] = len(m.inner)
+							m.inner = append(m.inner, []h.Ev{e})
+							m.emit(h.Nx("group"))
+							return
+						}
+						m.inner[idx[k]] = append(m.inner[idx[k]], e)
+					default:
+						m.emit(e)
+						for i := range m.inner {
+							m.inner[i] = append(m.inner[i], e)
+						}
+					}
+				}
+				return m
+			}, build: func(s []ro.Observable[int], set *recSet, out *h.Rec) ro.Subscription {
+				return subInner(gv.build(s[0]), set, out, late, "group")
+			}})
+		}
 		// three keys and longer scripts (an old key, a new key, the old one again, the new one again, ...)
 		ops = append(ops, msOp{name: "GroupBy(v%3)" + sfx, k: 1, late: late, model: func() *msModel {
 			m := &msModel{sub: allSub(1)}
